@@ -42,6 +42,7 @@ func (e unsupported) Error() string { return e.msg }
 
 // Exec verifies one function.
 type Exec struct {
+	closureOf  map[*ssa.Alloc]*ssa.MakeClosure // locals assigned a function literal exactly once
 	freeVars   map[string]bool // names of variables a closure captured by reference
 	paramTerms map[string]bool // interface-typed parameter values (their pointees existed at entry)
 	initWrite bool // heapSet calls that only initialise a fresh allocation (not recorded as loop writes)
